@@ -8,7 +8,8 @@
     [wf_state] (the invariant of the construction). *)
 From Coq Require Import String Permutation.
 From Shk Require Import Base.Prelude Model.Storyline Model.Config.
-From Shk Require Import Proofs.ConfigText Proofs.ConfigRoles Proofs.ConfigReload Proofs.ConfigSame Proofs.ConfigParams.
+From Shk Require Import Proofs.ConfigText Proofs.ConfigRoles Proofs.ConfigReload Proofs.ConfigSame Proofs.ConfigParams
+  Proofs.ConfigInvariant Proofs.ConfigInvAudience Proofs.StoryScriptProofs Proofs.ConfigStory.
 Open Scope Z_scope.
 
 (** [s] is built from the initial configuration (with any -D definitions) by
@@ -21,9 +22,22 @@ Definition reachable (orc : oracles) (s : cstate) : Prop :=
 Definition reloads (orc : oracles) (s : cstate) : Prop :=
   exists s', reload orc s = Ok s' /\ same_play s s' /\ print_equiv (print orc s') (print orc s).
 
+(** [wf_state] is an invariant of the construction: every state built from the
+    initial one (with any -D definitions) by any list of accepted clauses is
+    well-formed.  By induction on the clause list; every clause kind keeps
+    every conjunct (unique names, references to existing roles / actors /
+    signals / actions, expressions equal to what the compiler says of their
+    source, signal references registered as watches, the repetition point
+    equal to the first matching act...). *)
+Theorem c10_reachable_wf :
+  forall orc s, reachable orc s -> wf_state orc s = true.
+Proof.
+  intros orc s (defs & cl & H). exact (run_wf orc cl (init_state defs) s (wf_init orc defs) H).
+Qed.
+
 (** The full statement, "every reachable state reloads", is FALSE of the
     faithful model (and of the code): see the refutations below.  What holds:
-    every well-formed state that is [printable] reloads.  [printable]
+    every reachable state that is [printable] reloads.  [printable]
     excludes exactly the listed findings (substituted texts that are empty or
     hold a parameter reference, a time stamp pseudo-pattern left in a regexp,
     an audience not in definition order) plus [story_printable], which is an
@@ -32,11 +46,39 @@ Definition reloads (orc : oracles) (s : cstate) : Prop :=
     is assumed of the time library: ParseDuration (d.String()) = d, and a
     printed duration holds no `~` and is not the word `unconstrained`. *)
 Theorem c10_reload_partial :
-  forall orc s, oracle_ok orc -> wf_state orc s = true -> printable s = true -> reloads orc s.
+  forall orc s, oracle_ok orc -> reachable orc s -> printable s = true -> reloads orc s.
 Proof.
-  intros orc s Horc Hwf Hpr. exists (canon_state orc s).
+  intros orc s Horc Hreach Hpr. pose proof (c10_reachable_wf orc s Hreach) as Hwf.
+  exists (canon_state orc s).
   split; [exact (reload_canon orc Horc s Hwf Hpr)|].
   split; [exact (same_play_canon orc s Hwf)|exact (print_equiv_canon orc s Hwf)].
+Qed.
+
+(** [story_printable] is no finding but an invariant: with the C06 theorems
+    (a well-formed storyline is read back from its printed form; storyline
+    and edit clauses keep it well-formed; definitions only grow), for every
+    run whose storyline texts and edit results hold no white space but ' '
+    (C06's own domain assumption, [clauses_nc]). *)
+Theorem c10_story_printable :
+  forall orc defs cl s,
+    clauses_nc orc cl (init_state defs) -> run orc cl (init_state defs) = Ok s -> story_printable s = true.
+Proof.
+  intros orc defs cl s Hnc H. apply story_wf_printable.
+  exact (run_story_wf orc cl (init_state defs) s (story_wf_init defs) Hnc H).
+Qed.
+
+(** Hence, on that domain, the reload theorem with only the listed findings
+    excluded: substituted texts inert and not empty, no time stamp
+    pseudo-pattern left in a regexp, the audience in definition order. *)
+Theorem c10_reload_no_ctl_partial :
+  forall orc defs cl s,
+    oracle_ok orc -> clauses_nc orc cl (init_state defs) -> run orc cl (init_state defs) = Ok s ->
+    texts_printable s = true -> regexps_printable s = true -> aud_ordered [] (c_aud s) = true ->
+    reloads orc s.
+Proof.
+  intros orc defs cl s Horc Hnc H Ht Hr Ho.
+  apply (c10_reload_partial orc s Horc); [exists defs, cl; exact H|].
+  unfold printable. rewrite Ht, Hr, Ho, (c10_story_printable orc defs cl s Hnc H). reflexivity.
 Qed.
 
 (** Parameters appear substituted: a reference ~n~ to a defined parameter in a
